@@ -70,7 +70,8 @@ def main():
     out.append("Changes delivered by seeders and **rejected** after review (removed, not counted): C13-14 and C13-17 (a getter "
                "returning a copy: no listed clause is broken, the demos compared object identity), C14-18 (manifests only for a "
                "user-written subclass that overrides a private hook), C12-18 (aliases two names for one object; no observable "
-               "change inside the property's domain).  One change (C10-21) was written for C10 but alters SimPersistent's "
+               "change inside the property's domain), C18-34 (needs one parameter object registered in two maps: the property "
+               "quantifies over parameter trees).  One change (C10-21) was written for C10 but alters SimPersistent's "
                "warm-up handling, which is C11's statement; it is decided by C11 (`decided_by` in its meta.json) and C10 "
                "stays green on it by design.\n")
     block = "<!-- seeded:begin -->\n" + "\n".join(out) + "<!-- seeded:end -->"
